@@ -25,7 +25,7 @@ ASSUMPTIONS = ["the invariant is an internal-state invariant by nature: the rust
 
 def gen(rng, i, tier):
     return {"seed": rng.randrange(1 << 40), "n_ops": rng.choice([5, 12, 25, 40, 60]), "p_collide": rng.choice([0.2, 0.35, 0.5]),
-            "two_systems": i % 3 == 1, "no_reports": i % 2 == 1, "second_is_copy": i % 6 == 1}
+            "two_systems": i % 3 == 1, "no_reports": i % 2 == 1, "second_is_copy": i % 6 == 1, "reload": i % 4 == 2}
 
 
 def directed():
@@ -47,8 +47,20 @@ def run(ctx, case):
         systems.append({"sys": so, "start": start, "broken": set(x[0] for x in hist.invariants(so))})
     ops = []
     acc = rej = 0
+    reload_at = rng.randrange(2, max(3, case["n_ops"] // 2)) if case.get("reload") else -1
     for k in range(case["n_ops"]):
         cur = rng.choice(systems)
+        if k == reload_at:
+            # the editing continues on the system as LOADED from its own saved file (a loaded system obeys the same rules)
+            import os
+
+            with H.quiet(), H.tmpdir() as dd:
+                fn_ = os.path.join(dd, "mid.json")
+                s_, _r = H.call(cur["sys"].save, fn_)
+                s2_, loaded = H.call(ns.System.from_file, fn_) if s_ == "ok" else ("raise", None)
+            if s2_ == "ok":
+                cur["sys"] = loaded
+                ctx.count("history", "continued on the system loaded from its saved file")
         sysobj = cur["sys"]
         try:
             L = hist.live(sysobj)
